@@ -956,7 +956,7 @@ class BaseCfgLine(object):
                         #######################################################
                         # Always insert after the last descendant so no
                         # existing line is re-parented by the new line
-                        _idx = self.linenum + len(self.all_children) + 1
+                        _idx = self.family_endpoint + 1
 
                     elif insertstr_family_indent < self.classify_family_indent(self.text):
                         # inserstr is indented less than this object
